@@ -10,5 +10,11 @@ CONSTANTS
   LegacyPullZero = FALSE
   LegacyTrimRaw = FALSE
   GenDepth = 0
+  Srvs = {1, 2}
+  Ots <- OtsOne
+  Coes <- CoesOne
+  SharedContextTable = FALSE
+  ExpireSessions = FALSE
+  RandArgs = FALSE
   Cover = FALSE
 CHECK_DEADLOCK FALSE
